@@ -3,7 +3,7 @@ from __future__ import annotations
 
 import ast
 
-from ..astutil import kwarg, calls_in, names_in, access_path
+from ..astutil import kwarg, calls_in, names_in, access_path, returned_name, blueprint_vars
 from ..model import AnalysisError, Func, norm, walk_own
 from ..report import RuleResult
 
@@ -26,8 +26,6 @@ NEUTRAL = {
     ("core.dask_groupby_agg", "reindex"): ("equal values whether intermediates are reindexed at the block or the combine stage (C02)", None),
     ("core.dask_groupby_agg", "fill_value"): ("dead parameter: _aggregate and _reduce_blockwise never read their fill_value", "dead_fill"),
     ("core.dask_groupby_agg", "chunks_cohorts"): ("a function of by, the chunks, expected_groups and method, all covered", "cohorts_from_covered"),
-    ("core.subset_to_blocks", "reindexer"): ("determined by (array.name, block subset): the intermediate's name carries the token of agg/by/method and "
-                                             "chunks_cohorts maps block sets to cohorts functionally", None),
     ("core.subset_to_blocks", "chunks_as_array"): ("a function of array.chunks", None),
     ("core.subset_to_blocks", "blkshape"): ("enters the name through index", None),
     ("core.subset_to_blocks", "flatblocks"): ("enters the name through index", None),
@@ -253,10 +251,41 @@ def _tokenize_method(ctx, res):
         raise AnalysisError("Aggregation.__dask_tokenize__ not found")
     rets = [n for n in walk_own(tok.node) if isinstance(n, ast.Return) and n.value is not None]
     covered = set()
+    partial_cover: dict[str, str] = {}
+    VALUE_PRESERVING = {"tokenize", "normalize_token", "dict", "repr", "str", "copy.deepcopy", "dask.base.tokenize", "dask.base.normalize_token"}
+
+    def cover(e: ast.AST, ctx_ok: bool, how: str):
+        """self.X counts as covered when its *value* enters the token: a direct element, .items(), or a value-preserving call;
+        sorted(self.X) / tuple(self.X) / len(self.X) / self.X.keys() keep only keys or sizes of a mapping"""
+        if isinstance(e, ast.Attribute) and isinstance(e.value, ast.Name) and e.value.id == "self":
+            if ctx_ok:
+                covered.add(e.attr)
+            else:
+                partial_cover.setdefault(e.attr, how)
+            return
+        if isinstance(e, (ast.Tuple, ast.List)):
+            for x in e.elts:
+                cover(x, ctx_ok, how)
+            return
+        if isinstance(e, ast.Call):
+            fn = norm(e.func)
+            if isinstance(e.func, ast.Attribute) and e.func.attr == "items":
+                cover(e.func.value, ctx_ok, how)
+                return
+            if isinstance(e.func, ast.Attribute) and e.func.attr in ("keys", "__len__"):
+                cover(e.func.value, False, norm(e)[:50])
+                return
+            inner_ok = ctx_ok and (fn in VALUE_PRESERVING or (fn in ("tuple", "sorted", "frozenset", "list") and e.args and isinstance(e.args[0], ast.Call)
+                                                            and isinstance(e.args[0].func, ast.Attribute) and e.args[0].func.attr == "items"))
+            for a in list(e.args) + [k.value for k in e.keywords]:
+                cover(a, inner_ok, norm(e)[:50])
+            return
+        for ch in ast.iter_child_nodes(e):
+            if isinstance(ch, ast.expr):
+                cover(ch, False, norm(e)[:50])
+
     for r in rets:
-        for n in ast.walk(r.value):
-            if isinstance(n, ast.Attribute) and isinstance(n.value, ast.Name) and n.value.id == "self":
-                covered.add(n.attr)
+        cover(r.value, True, "")
     # instance attributes of Aggregation
     init = prog.func("aggregations.Aggregation.__init__")
     attrs = {t.attr for n in walk_own(init.node) if isinstance(n, (ast.Assign, ast.AnnAssign))
@@ -269,8 +298,9 @@ def _tokenize_method(ctx, res):
     # derived attributes written by _initialize_aggregation from other attributes only
     derived: dict[str, set[str]] = dict(props)
     ia = prog.func("aggregations._initialize_aggregation")
+    av = returned_name(ia) or "agg"
     for n in walk_own(ia.node):
-        if isinstance(n, ast.Assign) and len(n.targets) == 1 and access_path(n.targets[0]) == "agg.simple_combine":
+        if isinstance(n, ast.Assign) and len(n.targets) == 1 and access_path(n.targets[0]) == f"{av}.simple_combine":
             derived["simple_combine"] = {"combine"}      # shape checked by R-ALGEBRA (_check_simple_combine)
 
     def is_covered(a: str, depth=0) -> bool:
@@ -289,8 +319,11 @@ def _tokenize_method(ctx, res):
             if isinstance(f.node, ast.FunctionDef) else {}
         if "Scan" in ann.get("agg", ""):
             continue
+        bvs = blueprint_vars(f)
+        if not bvs:
+            continue
         for n in walk_own(f.node):
-            if isinstance(n, ast.Attribute) and isinstance(n.ctx, ast.Load) and isinstance(n.value, ast.Name) and n.value.id == "agg":
+            if isinstance(n, ast.Attribute) and isinstance(n.ctx, ast.Load) and isinstance(n.value, ast.Name) and n.value.id in bvs:
                 if n.attr in attrs or n.attr in props:
                     reads.setdefault(n.attr, []).append(f"{q}:{n.lineno}")
     if len(reads) < 8:
@@ -299,6 +332,7 @@ def _tokenize_method(ctx, res):
         ok = is_covered(a)
         res.inst(f"Aggregation.{a} read by tasks at {where[:3]} [{'covered by __dask_tokenize__' if ok else 'NOT COVERED'}]", f"attr|{a}")
         if not ok:
+            extra = f" (it only appears inside {partial_cover[a]}, which does not keep its value)" if a in partial_cover else ""
             res.report(f"aggregations.Aggregation.__dask_tokenize__|uncovered|{a}", tok.where(), tok.qualname,
-                       f"tasks read agg.{a} (e.g. {where[0]}) but __dask_tokenize__ does not cover it: two blueprints differing only in "
-                       f"{a} get the same token, hence the same layer names")
+                       f"tasks read agg.{a} (e.g. {where[0]}) but __dask_tokenize__ does not cover its value{extra}: two blueprints differing "
+                       f"only in {a} get the same token, hence the same layer names")
